@@ -279,11 +279,17 @@ func c11run(c *Ctx, idx int, log *mon.Log, w mon.W, alpha []modeCall, steps []c1
 				c.R.Add("probes_with_a_message_of_several_lines", 1)
 			}
 			withErr := (si+i)%2 != 0
+			// ... and some carry a group of attributes in the middle of their arguments
+			args := []any{"k", 1}
+			if (si+3*i)%4 == 1 {
+				args = []any{"k", 1, slog.Group("req", "method", "GET", "status", 200), "z", true}
+				c.R.Add("probes_with_a_group_attribute", 1)
+			}
 			evs := capture(log, func() {
 				if !withErr {
-					l.Info(msg, "k", 1)
+					l.Info(msg, args...)
 				} else {
-					l.Warn(msg, "k", 1, "err", errProbe)
+					l.Warn(msg, append(args, "err", errProbe)...)
 				}
 			})
 			if len(evs) != 1 {
